@@ -350,7 +350,9 @@ def prepare (a : Args) (w : World) : Except ErrClass Dest :=
       else .ok (.lazy a.output)
     else if w.stdout = .terminal then
       if a.output ≠ dash && !a.decrypt && !a.armor then .error .binaryToTerminal
-      else if !isFileName (inputName a) && w.stdinTerminal then .ok .buffered
+      -- (`in == os.Stdin` no longer holds when decrypting from a terminal: `in` is then the
+      --  buffered terminal input, so only encryption holds its output back)
+      else if !isFileName (inputName a) && w.stdinTerminal && !a.decrypt then .ok .buffered
       else .ok .stdout
     else .ok .stdout
 
